@@ -5,6 +5,7 @@ import Driver.Sexp
 import Gvlean.Generated.Helpers
 import Gvlean.Gen.Exec
 import Gvlean.Gen.Migrate
+import Gvlean.Gen.WellFormed
 import Gvlean.Generated.MwFacts
 
 open Go Driver
@@ -30,6 +31,16 @@ def stepModel (line : String) : String :=
     | some decl =>
       let bs := Gen.gen decl
       if bs.isEmpty then "none" else Gen.renderBlocks bs ++ " ; " ++ Gen.renderSentinels bs ++ " ; polls=" ++ toString bs.length
+  | ["wf", d] =>
+    match (readSx d).bind sxDecl with
+    | none => "bad-op"
+    | some decl =>
+      let bs := Gen.gen decl
+      if bs.isEmpty then "none" else
+      if Gen.wfFile decl.name bs then "wf" else
+        "not-wf" ++ (if !Gen.namesFaithful bs then " key/variable-mismatch" else "")
+          ++ (if !decide (("ErrNil" ++ decl.name) :: Gen.declaredNames bs).Nodup then " duplicate-declaration" else "")
+          ++ (if !Gen.scopesUsed bs then " unused-scope-variable" else "")
   | ["sem", d, ctxs, v] =>
     -- ctxs: "bg" | "<k>:<canceled|deadline>" (done from the k-th poll on) ; v: value sexp or "nilrecv"
     match (readSx d).bind sxDecl with
